@@ -98,6 +98,8 @@ package py
 //@   trusted
 //@   pure
 //@   ensures m: res <==> excmatch(exception, x)
+//@   callsite (*py.Type).IsSubtype order: arg(0) == t && arg(1) == exception
+//@   ensures exact: is(x, *Type) && x.(*Type) == exception ==> res
 
 // ---- py/frame.go: the block stack (C02, C12) ----
 
@@ -184,6 +186,10 @@ package py
 // ---- package-level state (C08): written outside init only by type registration, which runs during package
 // initialisation (TypeDelayReady is called from package-level variable initialisers, TypeMakeReady from init) ----
 //@ allow-global-write delayedReady
+// gRuntime is the process-wide registry of module IMPLEMENTATIONS (not instances), guarded by its own RWMutex and
+// written by RegisterModule (package init functions of the stdlib, or the embedder): shared by design; every
+// context instantiates its own module from an implementation (ModuleStore, C19).
+//@ allow-global-write gRuntime
 
 // ---- per-context module state (C08, C19) ----
 
@@ -479,11 +485,12 @@ package py
 //@   ensures count: r == nrunes(s)
 
 //@ func (String).pos(s, n) (r)
-//@   trusted
 //@   pure
 //@   requires nn: 0 <= n
 //@   ensures inside: n <= nrunes(s) ==> r == cpoff(s, n)
 //@   ensures beyond: n > nrunes(s) ==> r == nbytes(s)
+//@   loop 1
+//@     invariant cnt: characterNumber == iterno() && characterNumber <= n
 
 //@ func (String).slice(s, start, stop, length) (r)
 //@   pure
@@ -521,3 +528,11 @@ package py
 
 //@ func StringEscape(a, ascii) (r)
 //@   modifies *
+
+// ---- except clauses (C02): the raised class is tested against the class named by the clause, not the reverse ----
+
+//@ func ExceptionGivenMatches(err, exc) (res)
+//@   modifies *
+//@   callsite (*py.Type).IsSubtype order: is(exc, *Type) && arg(1) == exc.(*Type) && !is(exc, Tuple)
+//@   callsite ExceptionGivenMatches each: is(exc, Tuple) && arg(0) == err
+//@   ensures none: err == nil || exc == nil ==> !res
